@@ -1,6 +1,6 @@
 #!/bin/bash
-# usage: confirm.sh <ID> <k>  -- confirms a seeded change in a scratch clone of its own (/tmp/seed5/cwt; never the clone an agent works in)
-ID=$1; K=$2; WT=/tmp/seed5/cwt; AWT=/tmp/seed5/wt-$ID; OUT=/tmp/seed5/$ID-out/$K; LOG=$OUT/confirm.log
+# usage: [CWT=<clone>] confirm.sh <ID> <k>  -- confirms a seeded change in a scratch clone of its own (/tmp/seed5/cwt; never the clone an agent works in)
+ID=$1; K=$2; WT=${CWT:-/tmp/seed5/cwt}; AWT=/tmp/seed5/wt-$ID; OUT=/tmp/seed5/$ID-out/$K; LOG=$OUT/confirm.log
 export GOPROXY=off GOSUMDB=off GOTOOLCHAIN=local GOFLAGS=
 exec > $LOG 2>&1
 cd $WT || exit 1
@@ -30,10 +30,9 @@ echo "== demo with change (expect FAIL)"
 tail -8 $OUT/.demo_patched.txt
 echo "$PLACES" | while read s d; do [ -n "$d" ] && rm -f "$d"; done
 echo "== suite with change (demo removed)"
-# (only pkg/regserver/regprocessor binds fixed ports: it runs under the shared lock, everything else runs without it)
-( cd $WT && go build ./... && go test -vet=off -count=1 -timeout 10m $(go list ./... | grep -v pkg/regserver/regprocessor) 2>&1 | grep -v "^ok\|no test files"
-  flock /tmp/seed5/regproc.lock go test -vet=off -count=1 -timeout 5m ./pkg/regserver/regprocessor/ 2>&1 | grep -v "^ok\|no test files"
-  for m in ./cmd/application ./cmd/registration-server ./util/station-debug; do (cd $WT/$m && go build ./... && go test -vet=off -count=1 -timeout 10m ./... 2>&1 | grep -v "^ok\|no test files"); done ) > $OUT/.suite.txt 2>&1
+# (pkg/regserver/regprocessor binds fixed local ports: the whole suite runs in a private network namespace, so
+# concurrent runs on this machine cannot collide and no lock is needed)
+unshare -n bash -c 'ip link set lo up; for m in . ./cmd/application ./cmd/registration-server ./util/station-debug; do (cd '$WT'/$m && go build ./... && go test -vet=off -count=1 -timeout 10m ./... 2>&1 | grep -v "^ok\|no test files"); done' > $OUT/.suite.txt 2>&1
 cat $OUT/.suite.txt | grep -- "--- FAIL\|^FAIL\|panic\|build failed\|cannot\|undefined" | head -20
 NF=$(grep -- "--- FAIL" $OUT/.suite.txt | grep -v TestConjureLibConfigResolveBlocklisted | wc -l)
 BUILD=$(grep -c "build failed\|undefined:\|cannot use" $OUT/.suite.txt)
